@@ -143,13 +143,17 @@ def all_valid_p(p):
   assert p[0] == 'C'
   _, k, cands, dist, srt = p[:5]
   subs = [all_valid(c) for c in cands]
-  out = []
-  for idx in itertools.product(range(len(cands)), repeat=k):
-    if dist and len(set(idx)) != k: continue
-    if srt and list(idx) != sorted(idx): continue
-    for combo in itertools.product(*[subs[c] for c in idx]):
-      out.append(('c', list(zip(idx, combo))))
-  return out   # itertools.product is lexicographic with the first position most significant
+  def tuples(m, prior):
+    # in the order of the DNA comparison: (c0, sub0) first, then (c1, sub1), ...
+    if m == 0: return [[]]
+    out = []
+    for c in range(len(cands)):
+      if not allowed(dist, srt, prior, c): continue
+      rest = tuples(m - 1, prior + [c])
+      for sub in subs[c]:
+        out += [[(c, sub)] + r for r in rest]
+    return out
+  return [('c', t) for t in tuples(k, [])]
 
 def valid(s, sd):
   return len(sd) == len(s[1]) and all(valid_p(p, x) for p, x in zip(s[1], sd))
@@ -167,46 +171,75 @@ def valid_p(p, x):
     return x[0] == 'f' and p[1] <= x[1] <= p[2]
   return x[0] == 's'
 
+class Reject(Exception):
+  """Why a concrete tree is not the normal form of a valid decision (the oracle's discriminator)."""
+
 def parse_tree(s, t):
   """Inverse of normalize relative to a spec: the structured decisions a concrete tree stands for,
   or None when it is not the normal form of any valid decision.  Independent of the library."""
+  try:
+    return parse_space(s, t)
+  except Reject:
+    return None
+
+def reject_reason(s, t):
+  try:
+    parse_space(s, t); return None
+  except Reject as e:
+    return e.args[0]
+
+def parse_space(s, t):
   es = s[1]
   if len(es) == 1:
-    x = parse_point(es[0], t)
-    return None if x is None else [x]
-  if t[0] is not None or len(t[1]) != len(es): return None
-  out = []
-  for p, c in zip(es, t[1]):
-    x = parse_point(p, c)
-    if x is None: return None
-    out.append(x)
-  return out
+    return [parse_point(es[0], t)]
+  if len(t[1]) != len(es): raise Reject('arity')
+  if t[0] is not None: raise Reject('value-on-space-node')
+  return [parse_point(p, c) for p, c in zip(es, t[1])]
 
 def parse_point(p, t):
   if p[0] == 'F':
-    return ('f', t[0]) if isinstance(t[0], float) and not isinstance(t[0], bool) and p[1] <= t[0] <= p[2] and not t[1] else None
+    if not isinstance(t[0], float): raise Reject('type')
+    if not (p[1] <= t[0] <= p[2]): raise Reject('float-range')
+    if t[1]: raise Reject('float-children')
+    return ('f', t[0])
   if p[0] == 'X':
-    return ('s', t[0]) if isinstance(t[0], str) and not t[1] else None
+    if not isinstance(t[0], str): raise Reject('type')
+    return ('s', t[0])     # children of a custom decision are user-defined: not constrained
   _, k, cands, dist, srt = p[:5]
   def single(t):
     v = t[0]
-    if not isinstance(v, int) or isinstance(v, bool) or not (0 <= v < len(cands)): return None
-    cand = cands[v]
-    sub = parse_tree(cand, mk(None, t[1]))
-    # mk(None, kids) must give back exactly these kids, otherwise the tree was not in normal form
-    if sub is None: return None
-    if mk(v, [normalize(sub)]) != (v, t[1]) and freeze(mk(v, [normalize(sub)])) != freeze((v, t[1])): return None
+    if not isinstance(v, int) or isinstance(v, bool): raise Reject('type')
+    if v < 0: raise Reject('negative-index')
+    if v >= len(cands): raise Reject('index-too-large')
+    sub = parse_space(cands[v], mk(None, t[1]))
+    # the children must be exactly what the constructor makes of the sub-space decision
+    if freeze(mk(v, [normalize(sub)])) != freeze((v, t[1])): raise Reject('not-normal-form')
     return (v, sub)
   if k == 1:
-    r = single(t)
-    return None if r is None else ('c', [r])
-  if t[0] is not None or len(t[1]) != k: return None
+    return ('c', [single(t)])
+  if len(t[1]) != k: raise Reject('arity')
+  if t[0] is not None: raise Reject('value-on-multi-choice-node')
   cs = [single(c) for c in t[1]]
-  if any(c is None for c in cs): return None
   idx = [c for c, _ in cs]
-  if dist and len(set(idx)) != k: return None
-  if srt and idx != sorted(idx): return None
+  if dist and len(set(idx)) != k: raise Reject('not-distinct')
+  if srt and idx != sorted(idx): raise Reject('not-sorted')
   return ('c', cs)
+
+def size(s):
+  """Number of valid decisions of a finite spec (by summing over the admissible index tuples, not by the library's recurrences)."""
+  n = 1
+  for p in s[1]:
+    _, k, cands, dist, srt = p[:5]
+    subs = [size(c) for c in cands]
+    tot = 0
+    for idx in itertools.product(range(len(cands)), repeat=k):
+      if dist and len(set(idx)) != k: continue
+      if srt and list(idx) != sorted(idx): continue
+      m = 1
+      for c in idx: m *= subs[c]
+      tot += m
+    n *= tot
+  return n
 
 # ------------------------------------------------------------------------------------------------
 # generators
